@@ -119,6 +119,15 @@ def run(ctx):
     for _ in range(ctx.scale(1500, 200000)):
         n = rng.randint(4, 5)
         cases.append(chain_case(rng.choice(list(SHAPES)), [rng.choice(OPS) for _ in range(n)]))
+    # long chains: every operator repeated 6..40 times (seeded C03-2 re-balanced runs of one "associative"
+    # operator with more than 8 operands), and long mixed chains
+    for op in OPS:
+        for n in (6, 8, 9, 12, 17, 40):
+            cases.append(chain_case(rng.choice(list(SHAPES)), [op] * n))
+    for _ in range(ctx.scale(150, 5000)):
+        n = rng.randint(6, 24)
+        few = [rng.choice(OPS) for _ in range(rng.randint(1, 3))]
+        cases.append(chain_case(rng.choice(list(SHAPES)), [rng.choice(few) for _ in range(n)]))
     # parentheses override the grouping
     for op1, op2 in itertools.product(OPS, repeat=2):
         cases.append(("a %s (b %s c)" % (op1, op2),
@@ -129,7 +138,7 @@ def run(ctx):
                       "(expr (binop %s (binop %s (var a) (paren (binop %s (var b) (var c)))) (var d)))" % (op1, op1, op2)))
     ctx.rule = ("chains x1 op1 x2 … over all 21 operators: exhaustive for 1..3 operators x 3 operand shapes (literals; "
                 "variables/calls/method calls/dot/::; parenthesised/strings/lists/floats/calls with chain arguments) = %d, "
-                "random 4-5 operators, 3 parenthesised patterns for every operator pair; value oracle on type-correct "
+                "random 4-5 operators, every operator repeated 6/8/9/12/17/40 times and long chains over 1-3 operators, 3 parenthesised patterns for every operator pair; value oracle on type-correct "
                 "Int/Bool/String chains of 2..6 operators. Non-trivial = at least 3 operators (4 operands), where the "
                 "one-level rotation of the pinned parser goes wrong, or explicit parentheses." % n_exh)
     srcs = [c[0] for c in cases]
